@@ -34,6 +34,10 @@ fn class_of(c: char) -> CharClass {
 fn word_text(chars: &[char], classes: &[CharClass]) -> TextOwn {
     let mut t = TextOwn::from_vec(chars.to_vec());
     t.classes = classes.to_vec();
+    // one word in four is "unfinished" (what the last word of a query is): the distance must not care on which
+    // side such a word stands (decided by the letters, so that the same word is the same word in every call)
+    let h = chars.iter().fold(0xcbf29ce484222325u64, |h, c| (h ^ *c as u64).wrapping_mul(0x100000001b3));
+    t.words[0].fin = h % 4 != 1;
     t
 }
 
